@@ -33,7 +33,7 @@ ENDS = {"stop": 0, "return": 1, "revert": 2, "invalid": 3}
 CREATE_BASE = 0xAAAA0000 + 1
 NARGS = 2
 CALLDATA = [("c", bytes(32))] + [("s", f"arg{i}", 32) for i in range(NARGS)]
-MARKERS = {6: "depth-nocode"}
+MARKERS = {}      # the specification marks no situation any more (every known deviation has been repaired)
 
 
 # ------------------------------------------------------------------ work-around for harness/zeval.py
@@ -297,7 +297,7 @@ def _dec_log(r):
         elif k == 2:
             out.append(("event", r.one()))
         else:
-            out.append(("marker", MARKERS[k]))
+            out.append(("marker", MARKERS.get(k, f"marker-{k}")))
     return out
 
 
